@@ -33,6 +33,7 @@ structure ROps (K R : Type) where
   one     : R
   add     : R → R → R
   sub     : R → R → R
+  mul     : R → R → R
   div     : R → R → R
   neg     : R → R
   sqrt    : R → R
@@ -174,9 +175,10 @@ def collapse (o : ROps K R) (arr : Array K) (q : Nat) (res : Bool) (norm : R) : 
 
 /-- the body of `QasmSimulator::measure` after the activity check; `r` is the uniform draw -/
 def measureCore (o : ROps K R) (st : State K R) (q : Nat) (r : R) : State K R × Bool :=
+  let p0 := mass o st.amps q false
   let p1 := mass o st.amps q true
-  let res := o.lt r p1
-  let norm := o.sqrt (if res then p1 else o.sub o.one p1)
+  let res := o.lt (o.mul r (o.add p0 p1)) p1
+  let norm := o.sqrt (if res then p1 else p0)
   let st1 := ({ st with amps := collapse o st.amps q res norm }).log (.measure q)
   ({ st1 with measured := st1.measured.setIfInBounds q true }, res)
 
@@ -197,9 +199,10 @@ def swapDown (o : ROps K R) (arr : Array K) (q : Nat) : Array K :=
     amplitude into the `|0>` half.  The flag is cleared and the log line is `reset q[i];`. -/
 def resetCore (o : ROps K R) (st : State K R) (q : Nat) (r : R) : State K R × Bool :=
   let st0 := { st with measured := st.measured.setIfInBounds q false }
+  let p0 := mass o st0.amps q false
   let p1 := mass o st0.amps q true
-  let res := o.lt r p1
-  let norm := o.sqrt (if res then p1 else o.sub o.one p1)
+  let res := o.lt (o.mul r (o.add p0 p1)) p1
+  let norm := o.sqrt (if res then p1 else p0)
   let amps := collapse o st0.amps q res norm
   let amps := if res then swapDown o amps q else amps
   (({ st0 with amps := amps }).log (.reset q), res)
